@@ -42,6 +42,11 @@ func equalValue(x, y reflect.Value) bool {
 	if ok1 && ok2 {
 		return rx.Cmp(ry) == 0
 	}
+	if ok1 != ok2 {
+		// A number never equals a non-number.
+		// (Comparing kinds is not enough: a json.Number has kind string.)
+		return false
+	}
 	if x.Kind() != y.Kind() {
 		return false
 	}
@@ -274,6 +279,13 @@ func jsonType(v reflect.Value) (string, bool) {
 		}
 		return "number", true
 	}
+	if v.Type() == jsonNumberType {
+		// A json.Number holds a JSON number, although its Go kind is string.
+		if r, ok := jsonNumber(v); ok && r.IsInt() {
+			return "integer", true
+		}
+		return "number", true
+	}
 	switch v.Kind() {
 	case reflect.Bool:
 		return "boolean", true
@@ -287,6 +299,8 @@ func jsonType(v reflect.Value) (string, bool) {
 		return "", false
 	}
 }
+
+var jsonNumberType = reflect.TypeFor[json.Number]()
 
 func assert(cond bool, msg string) {
 	if !cond {
